@@ -67,14 +67,14 @@ func init() {
 			alpha := []cliEv{
 				{K: "start", I: 0}, {K: "start", I: 1}, {K: "start", I: 2},
 				{K: "resp", I: 0}, {K: "resp", I: 1}, {K: "resp", I: 2},
-				{K: "resp", I: 0, Arg: 1}, {K: "unknown"}, {K: "unknown", Arg: 1},
+				{K: "resp", I: 0, Arg: 1}, {K: "resp", I: 1, Arg: 2}, {K: "unknown"}, {K: "unknown", Arg: 1},
 				{K: "garbage", Arg: 0}, {K: "garbage", Arg: 1}, {K: "garbage", Arg: 2}, {K: "garbage", Arg: 3},
 				{K: "tick", Arg: 1}, {K: "failagent"},
 			}
 			eps := []string{"drain+close"}
 			cliHistories(c, "C12", cliOpts{Fallback: true, PoolFanout: true}, alpha, depth, eps, "Hfb")
 			cliHistories(c, "C12", cliOpts{PoolFanout: true}, alpha, depth-1, eps, "H")
-			small := []cliEv{{K: "start", I: 0}, {K: "start", I: 1}, {K: "resp", I: 0}, {K: "resp", I: 1}, {K: "unknown"}, {K: "tick", Arg: 1}, {K: "failagent"}, {K: "failwrite"}}
+			small := []cliEv{{K: "start", I: 0}, {K: "start", I: 1}, {K: "resp", I: 0}, {K: "resp", I: 1, Arg: 2}, {K: "unknown"}, {K: "tick", Arg: 1}, {K: "failagent"}, {K: "failwrite"}}
 			cliHistoriesFrom(c, "C12", cliOpts{Fallback: true, PoolFanout: true}, []cliEv{{K: "start", I: 0}, {K: "resp", I: 0}}, small, depth, eps, "Hafter")
 			ev := func(k string, i int) cliEv { return cliEv{K: k, I: i} }
 			tickAfter := cliEv{K: "tick", Arg: 1}
@@ -156,6 +156,18 @@ func init() {
 					n++
 					cliExplore(c, "C15", sc, pb, true, fmt.Sprintf("S%d", n))
 				}
+			}
+			// a transport under back pressure: every Write blocks until the connection is closed
+			for _, sc := range []cliScenario{
+				{Threads: [][]cliEv{nil, {cl}, {ev("indicate", 0)}}},
+				{Threads: [][]cliEv{nil, {cl}, {ev("start", 0)}}},
+				{Threads: [][]cliEv{nil, {cl}, {ev("do", 0)}}},
+				{Threads: [][]cliEv{nil, {cl}, {ev("indicate", 0)}, {ev("start", 1)}}},
+			} {
+				sc.Opts = cliOpts{StallWrite: true}
+				sc.Epilogue = "close"
+				n++
+				cliExplore(c, "C15", sc, pb, true, fmt.Sprintf("S%d", n))
 			}
 			c.Extra("history_depth", float64(depth))
 			c.Extra("preemption_bound", float64(pb))
